@@ -68,6 +68,81 @@ theorem no_cross_molecule_state (f : Nat) (st : RSt) (line : Str) (ls : List Str
        | .error e => .error e) :=
   readLoop_molecule_independent f st line ls hne hc htag
 
+/-- `surplus_record_rejected`: line-skipping switched on by an unsupported `@<TRIPOS>` block ends at the next
+tag. Whatever state the reader is in when it meets `@<TRIPOS>ATOM` (in particular `skip = true` after a
+`@<TRIPOS>COMMENT` / `SUBSTRUCTURE` block), once the declared number of atom records has been read a following
+line that is neither blank, nor a comment, nor a tag is a syntax error — so a text in which an atom record was
+duplicated (the last record falls out of the count-driven loop) is rejected, never returned with the
+duplicate in place of the last atom. -/
+theorem surplus_record_rejected (f : Nat) (st : RSt) (h : Header) (tagLine : Str) (al : List Str) (recs : List Rec)
+    (stray : Str) (rest : List Str)
+    (hh : st.hdr = some h) (htag : triposTag tagLine = some "ATOM".toList)
+    (hne0 : tagLine ≠ []) (hc0 : tagLine.head? ≠ some '#')
+    (hlen : al.length = h.nAtoms.toNat) (hrecs : mapE atomRec al = .ok recs)
+    (hne : stray ≠ []) (hc : stray.head? ≠ some '#') (hnt : triposTag stray = none) :
+    readLoop (f + 2) st (tagLine :: (al ++ stray :: rest)) = .error .syntax := by
+  rw [readLoop_step]
+  have hs : step st tagLine (al ++ stray :: rest) =
+      .ok ([], { st with atoms := some recs, skip := false }, stray :: rest) := by
+    unfold step
+    rw [if_neg hne0, if_neg hc0, htag]
+    have hne1 : ¬ ("ATOM".toList = "MOLECULE".toList) := by decide
+    simp only [hne1, if_false, if_true, hh]
+    rw [← hlen, takeLines_append]
+    simp only [hrecs]
+  rw [hs, cont_nil, readLoop_step]
+  have hs2 : step { st with atoms := some recs, skip := false } stray rest = .error .syntax := by
+    unfold step
+    rw [if_neg hne, if_neg hc, hnt]
+    simp
+  rw [hs2]
+  rfl
+
+/-- the same for the BOND section -/
+theorem surplus_bond_record_rejected (f : Nat) (st : RSt) (h : Header) (nb : Int) (tagLine : Str) (bl : List Str)
+    (recs : List Rec) (stray : Str) (rest : List Str)
+    (hh : st.hdr = some h) (hnb : h.nBonds = some nb) (htag : triposTag tagLine = some "BOND".toList)
+    (hne0 : tagLine ≠ []) (hc0 : tagLine.head? ≠ some '#')
+    (hlen : bl.length = nb.toNat) (hrecs : mapE bondRec bl = .ok recs)
+    (hne : stray ≠ []) (hc : stray.head? ≠ some '#') (hnt : triposTag stray = none) :
+    readLoop (f + 2) st (tagLine :: (bl ++ stray :: rest)) = .error .syntax := by
+  rw [readLoop_step]
+  have hs : step st tagLine (bl ++ stray :: rest) =
+      .ok ([], { st with bonds := some recs, skip := false }, stray :: rest) := by
+    unfold step
+    rw [if_neg hne0, if_neg hc0, htag]
+    have hne1 : ¬ ("BOND".toList = "MOLECULE".toList) := by decide
+    have hne2 : ¬ ("BOND".toList = "ATOM".toList) := by decide
+    simp only [hne1, hne2, if_false, if_true, hh, hnb]
+    rw [← hlen, takeLines_append]
+    simp only [hrecs]
+  rw [hs, cont_nil, readLoop_step]
+  have hs2 : step { st with bonds := some recs, skip := false } stray rest = .error .syntax := by
+    unfold step
+    rw [if_neg hne, if_neg hc, hnt]
+    simp
+  rw [hs2]
+  rfl
+
+/-- non-vacuity and the concrete shape of the damage: an unsupported block in front of ATOM, the first atom
+line duplicated — rejected (a reader that keeps skipping after the unsupported block returns C, C instead of C, O) -/
+example : (loadsAll table bonds .molecule none
+    ("@<TRIPOS>MOLECULE\nm\n2 0\nS\nNO_CHARGES\n\n@<TRIPOS>COMMENT\nby a tool\n@<TRIPOS>ATOM\n" ++
+     "1 C 0 0 0 C\n1 C 0 0 0 C\n2 O 0 0 1 O\n@<TRIPOS>BOND\n").toList).toOption = none := by
+  decide +kernel
+
+/-- `mol2_atom_tail_counterexample` (known finding, the mol2 twin of D22): in a FOREIGN layout whose last record
+is an atom line (ATOM section after BOND) a cut inside the last token is accepted with a different value:
+charge `0.25` cut to `0.2`. Texts written by molli end in a bond line, for which `truncation_last_record` holds. -/
+theorem mol2_atom_tail_counterexample :
+    ((loadsAll table bonds .molecule none
+      "@<TRIPOS>MOLECULE\nm\n1 0\nS\nUSER_CHARGES\n\n@<TRIPOS>BOND\n@<TRIPOS>ATOM\n1 C 0 0 0 C 1 U 0.25\n".toList).toOption.map
+        (fun ms => ms.map (fun m => m.atoms.map (·.charge)))) = some [[.fin false 25 (-2)]] ∧
+    ((loadsAll table bonds .molecule none
+      "@<TRIPOS>MOLECULE\nm\n1 0\nS\nUSER_CHARGES\n\n@<TRIPOS>BOND\n@<TRIPOS>ATOM\n1 C 0 0 0 C 1 U 0.2".toList).toOption.map
+        (fun ms => ms.map (fun m => m.atoms.map (·.charge)))) = some [[.fin false 2 (-1)]] := by
+  decide +kernel
+
 /-- `truncation_prefix` (mol2): "for every truncation point (all line boundaries)": the text of any
 number of admissible molecules written by molli, cut after any number `n` of lines, is rejected or gives
 exactly the first `j` molecules, each equal to what the undamaged text gives — never a partial molecule. -/
